@@ -338,10 +338,11 @@ Definition atom_row (discard_h first_only : bool) (hdr : list text) (s : rst) (r
   let occ := match occ with Some o => o | None => FFin 1 0 end in
   let bf := match bf with Some o => o | None => FFin 1 0 end in
   let charge := match charge with Some c => c | None => 0 end in
-  let us := map (fun n : string => column get_f64 hdr row n)
-    ["atom_site.aniso_U[1][1]"; "atom_site.aniso_U[1][2]"; "atom_site.aniso_U[1][3]";
-     "atom_site.aniso_U[2][1]"; "atom_site.aniso_U[2][2]"; "atom_site.aniso_U[2][3]";
-     "atom_site.aniso_U[3][1]"; "atom_site.aniso_U[3][2]"; "atom_site.aniso_U[3][3]"]%string in
+  let us := [column get_f64 hdr row "atom_site.aniso_U[1][1]"; column get_f64 hdr row "atom_site.aniso_U[1][2]";
+             column get_f64 hdr row "atom_site.aniso_U[1][3]"; column get_f64 hdr row "atom_site.aniso_U[2][1]";
+             column get_f64 hdr row "atom_site.aniso_U[2][2]"; column get_f64 hdr row "atom_site.aniso_U[2][3]";
+             column get_f64 hdr row "atom_site.aniso_U[3][1]"; column get_f64 hdr row "atom_site.aniso_U[3][2]";
+             column get_f64 hdr row "atom_site.aniso_U[3][3]"] in
   let eu := flat_map snd us in
   let uvals := map fst us in
   let all_some := forallb (fun o : option fval => match o with Some _ => true | None => false end) uvals in
